@@ -146,6 +146,11 @@ def classify_consumption(ctx, b, cs):
         ety_adt = ety if ety in iob else None
         # payload flow to an Err exit
         err_exits = [e for e in b.exits() if e['kind'] in ('err',)]
+        # an error handed on with `?` after a conversion (`.map_err(Ctor)?`, A-DESUGAR) leaves through an
+        # err_prop exit: what is propagated is the residual handed to from_residual
+        for e in b.exits():
+            if e['kind'] == 'err_prop' and e.get('residual_call') is not None and e['residual_call'].args:
+                err_exits.append({'point': e['point'], 'kind': 'err', 'ops': [e['residual_call'].args[0]], 'variant': None, 'adt': None})
         problems = []
         handled = False
         if ety == IOERR:
@@ -280,7 +285,7 @@ def err_region_escapes(ctx, b, tgt, cs):
             if eof and e['point'] not in b.reach([tgt], avoid_edges=eof):
                 continue    # only reachable through `kind() == UnexpectedEof`: a short file, not a failure
             return 'reach a success return (%s)' % b.loc(e['point'])
-    if cs.point in r:
+    if cs.point in r and (not eof or cs.point in b.reach([tgt], avoid_edges=eof)):
         return 'go round the loop and retry (%s)' % b.loc(cs.point)
     # falls off to return without setting an Err? (fn returning Result always sets _0, so fine)
     return None
@@ -336,6 +341,8 @@ def err2(ctx):
                         for v, carries in iob[ety].items():
                             if not carries and v in edges:
                                 avoid_edges.add(edges[v])
+            # a short file (read_exact -> UnexpectedEof) is an answer, not a failure: going on to the next file is fine
+            avoid_edges |= set(eof_edges(b, cs))
             reach = b.reach_after(cs.point, avoid_edges=avoid_edges)
             back = cs.point in reach
             ctx.check(not back, key, where(b, cs.point), 'an I/O error from this call cannot reach the loop back-edge',
